@@ -71,3 +71,17 @@ CHECKS["C12"] = dict(
          "diagnostic and a fresh, complete output file, any failure must leave no file, and by-construction erroneous inputs must fail.",
     note="A diagnostic is a stdout line matching \\b(Error|error)\\b; 'complete' means well-terminated for the type (contents are C03's question); "
          "corruptions landing in untaken branches are judged for consistency only.")
+
+CHECKS["C13"] = dict(
+    level="model_checking", design_ref="DESIGN.md 4/C13",
+    technique="exhaustive enumeration of configurations (option subsets x output types x output names), of in-process assembly histories (BFS depth <= 3) "
+              "and of two environment answers for hidden inputs (pass-1 memory markers scrubbed or not; zero- vs pattern-initialised stack/heap), "
+              "differential oracle on the real assembler",
+    text="For 61 seed programs: every subset of {-l,-q,-dump_symbols,-dump_macros} x {hex,srec,elf,wdc,bin,uf2} x two output names must give a "
+         "byte-identical file per type (S0 masked; same configuration twice included) and the same decoded image across types; every sequence of up "
+         "to 3 in-process assemblies drawn from 12 programs must leave the last assembly's image and symbols equal to what it yields alone; every "
+         "corpus instruction (plain, and with its last number replaced by a large / a small forward label) must give the same image when all "
+         "written-markers are cleared between the passes (no byte of the output may come from pass-1 memory); output and listing must be identical "
+         "under zero- and pattern-initialised automatic variables and heap.",
+    note="Histories and the marker scrub use the library seam (probe/asmprobe.cpp mirrors main()'s two-pass flow); interactive 'asm' of naken_util "
+         "is not drivable from its CLI and is represented by that seam.")
